@@ -75,16 +75,12 @@ public:
 
     template <typename D, bool TR>
     virtual_2d_locator(virtual_2d_locator<D, TR> const &loc, coord_t y_step)
-        : y_pos_(loc.pos(), point_t(loc.step().x, loc.step().y * y_step), loc.deref_fn())
+        : y_pos_(loc.pos(), scaled_step(loc.step(), TR, 1, y_step, false), loc.deref_fn())
     {}
 
     template <typename D, bool TR>
     virtual_2d_locator(virtual_2d_locator<D, TR> const& loc, coord_t x_step, coord_t y_step, bool transpose = false)
-        : y_pos_(loc.pos()
-        , transpose ?
-            point_t(loc.step().x * y_step, loc.step().y * x_step) :
-            point_t(loc.step().x * x_step, loc.step().y * y_step)
-        , loc.deref_fn())
+        : y_pos_(loc.pos(), scaled_step(loc.step(), TR, x_step, y_step, transpose), loc.deref_fn())
     {
         BOOST_ASSERT(transpose == (IsTransposed != TR));
     }
@@ -129,6 +125,19 @@ public:
 private:
     template <typename D, bool TR>
     friend class virtual_2d_locator;
+
+    // The step is stored per dimension of the function's coordinate space. The x iterator of a transposed
+    // source walks dimension 1 and its y iterator dimension 0, so the factors have to follow the source's
+    // orientation (and are exchanged once more when the new locator transposes the source).
+    static auto scaled_step(point_t step, bool source_is_transposed, coord_t x_step, coord_t y_step, bool transpose)
+        -> point_t
+    {
+        std::size_t const x_dim = source_is_transposed ? 1 : 0;
+        std::size_t const y_dim = 1 - x_dim;
+        step[x_dim] *= transpose ? y_step : x_step;
+        step[y_dim] *= transpose ? x_step : y_step;
+        return step;
+    }
 
     y_iterator y_pos_; // current position, the step and the dereference object
 };
